@@ -11,10 +11,13 @@ bundle builder's removal walk (`prepWalk`/`prepChildren`/`prepVisit`, `ensurePre
 Sanitise.lean).  Helper lemmas live in `Lemmas/WalkFilter`.
 
 * §1 ignore processing off: nothing is filtered.
-* §2 secrecy (`C03_pack_excluded_never_ships`): whatever the tree and the rules, no entry of the slug
-  has an excluded name.  No hypothesis on the rules; dereferencing off — with it on the statement is
-  false (`C03_cex_deref_rules_relative_to_target`: inside a dereferenced directory the rules are
-  applied to paths relative to the link target, not to slug paths).
+* §2 secrecy (`C03_pack_excluded_never_ships_any`): whatever the tree, the rules and the OPTIONS —
+  dereferencing included —, no entry of the slug has an excluded name.  No hypothesis on the rules.
+  The callback matches the rules against the archive path of a file (the name its entry gets), also
+  inside a dereferenced directory: `C03_visit_excluded_emits_nothing`,
+  `C03_deref_rules_match_archive_path`.  (Before the repair of finding F43 it matched them against
+  the path relative to the link's target there, and the statement needed `dereference = false`;
+  that form is kept as `C03_pack_excluded_never_ships`.)
 * §3 completeness.  `C03_pack_ships_iff`: for a physical source directory, without dereferencing,
   and for ANY rule set, exactly which nodes ship: those whose own path passes the callback's tests
   (`wfKept`) and none of whose ancestor directories is skipped (`wfPruned`, `wfOpenFrom`).
@@ -60,26 +63,40 @@ theorem C03_pack_nofilter (fs : FS) (cwd : Str) (o : PackOpts) (src : Str) (hoff
 
 /-! ## 2. secrecy: an excluded path never ships -/
 
-/-- **C03_visit_excluded_emits_nothing.** The callback on a node whose path relative to the walk's
-`src` is excluded: nothing is written, the walk goes on — also into the node's children when it is a
-directory (`filepath.Walk` continues; the children are judged on their own paths).  Any options, any
-`root`/`src`/`dst` (so also inside a dereferenced directory). -/
+/-- **C03_visit_excluded_emits_nothing.** The callback on a node whose ARCHIVE path is excluded —
+`sub`, the path relative to `root` after the replacement of `src` by `dst`: the name the entry would
+get —: nothing is written, the walk goes on — also into the node's children when it is a directory
+(`filepath.Walk` continues; the children are judged on their own paths).  Any options, any
+`root`/`src`/`dst`, so also inside a dereferenced directory, where `sub` differs from the path
+`sub0` relative to the walk's `src`.  (Finding F43: the unrepaired code tested `sub0`; the statement
+then read `(ruleExcludes rules sub0).1 = true`.) -/
 theorem C03_visit_excluded_emits_nothing (fs : FS) (cwd : Str) (o : PackOpts) (rules : Option (List Rule))
-    (root src dst : Str) (fuel : Nat) (path : Str) (node : Node) (st : PState) (sub0 : Str)
-    (h1 : pathRel src path = some sub0) (h2 : (ruleExcludes rules sub0).1 = true) :
+    (root src dst : Str) (fuel : Nat) (path : Str) (node : Node) (st : PState) (sub0 sub : Str)
+    (h1 : pathRel src path = some sub0) (h4 : pathRel root (replaceFirst path src dst) = some sub)
+    (h2 : (ruleExcludes rules sub).1 = true) :
     visit fs cwd o rules root src dst (fuel + 1) path node st = (st, .cont) :=
-  wf_visit_excluded fs cwd o rules root src dst fuel path node st sub0 h1 h2
+  wf_visit_excluded fs cwd o rules root src dst fuel path node st sub0 sub h1 h4 h2
 
-/-- **C03_visit_dir_excluded_emits_nothing.** A directory whose path with a trailing `/` is excluded
-writes nothing for itself; it is skipped with everything below it exactly when the match dominates
-(and the path without the slash is not itself excluded), otherwise its children are walked. -/
+/-- the same for a walk that is not inside a dereferenced directory (`root = src = dst`): the
+archive path is the path relative to the source -/
+theorem C03_visit_excluded_emits_nothing_top (fs : FS) (cwd : Str) (o : PackOpts) (rules : Option (List Rule))
+    (R : Str) (fuel : Nat) (path : Str) (node : Node) (st : PState) (sub : Str)
+    (h1 : pathRel R path = some sub) (h2 : (ruleExcludes rules sub).1 = true) :
+    visit fs cwd o rules R R R (fuel + 1) path node st = (st, .cont) :=
+  wf_visit_excluded_same fs cwd o rules R fuel path node st sub h1 h2
+
+/-- **C03_visit_dir_excluded_emits_nothing.** A directory whose archive path with a trailing `/` is
+excluded writes nothing for itself; it is skipped with everything below it exactly when the match
+dominates (and the path without the slash is not itself excluded), otherwise its children are
+walked. -/
 theorem C03_visit_dir_excluded_emits_nothing (fs : FS) (cwd : Str) (o : PackOpts) (rules : Option (List Rule))
-    (root src dst : Str) (fuel : Nat) (path : Str) (perm : Nat) (mt : Int) (st : PState) (sub0 : Str)
-    (h1 : pathRel src path = some sub0) (h3 : (ruleExcludes rules (sub0 ++ ['/'])).1 = true) :
+    (root src dst : Str) (fuel : Nat) (path : Str) (perm : Nat) (mt : Int) (st : PState) (sub0 sub : Str)
+    (h1 : pathRel src path = some sub0) (h4 : pathRel root (replaceFirst path src dst) = some sub)
+    (h3 : (ruleExcludes rules (sub ++ ['/'])).1 = true) :
     visit fs cwd o rules root src dst (fuel + 1) path (.dir perm mt) st =
-      (st, if sub0 = dot ∨ (ruleExcludes rules sub0).1 = true then .cont
-           else if (ruleExcludes rules (sub0 ++ ['/'])).2 then .skipDir else .cont) :=
-  wf_visit_dir_excluded fs cwd o rules root src dst fuel path perm mt st sub0 h1 h3
+      (st, if sub0 = dot ∨ sub = dot ∨ (ruleExcludes rules sub).1 = true then .cont
+           else if (ruleExcludes rules (sub ++ ['/'])).2 then .skipDir else .cont) :=
+  wf_visit_dir_excluded fs cwd o rules root src dst fuel path perm mt st sub0 sub h1 h4 h3
 
 /-- **C03_walk_excluded_never_ships.** The invariant of the three walk functions without
 dereferencing (`root = src = dst = R` throughout): whatever the tree, the rules, the fuel and the
@@ -106,7 +123,75 @@ theorem C03_walk_excluded_never_ships (fs : FS) (cwd : Str) (o : PackOpts) (rule
   exact ⟨fun p n st => conv (hN p n st), fun p ns st => conv (hC p ns st),
     fun p n st => conv (wf_visit_ship fs cwd o rules R hd fuel p n st)⟩
 
-/-- **C03_pack_excluded_never_ships.** `Pack` with ignore processing on and dereferencing off, for
+/-- **C03_walk_excluded_never_ships_any.** The same invariant for ANY options and any
+`root`/`src`/`dst` — dereferencing on, inside a dereferenced directory, any nesting —: whatever the
+tree, the rules, the fuel and the result, the final state is the initial one plus entries none of
+which has an excluded name. -/
+theorem C03_walk_excluded_never_ships_any (fs : FS) (cwd : Str) (rules : Option (List Rule)) (root : Str) (fuel : Nat) :
+    (∀ (o : PackOpts) src dst path node st,
+      ∃ L, (walkNode fs cwd o rules root src dst fuel path node st).1.entries = st.entries ++ L ∧
+      ∀ e ∈ L, (ruleExcludes rules (wfStrip e.name)).1 = false ∧
+        (e.isDir = true → (ruleExcludes rules e.name).1 = false)) ∧
+    (∀ (o : PackOpts) src dst path names st,
+      ∃ L, (walkChildren fs cwd o rules root src dst fuel path names st).1.entries = st.entries ++ L ∧
+      ∀ e ∈ L, (ruleExcludes rules (wfStrip e.name)).1 = false ∧
+        (e.isDir = true → (ruleExcludes rules e.name).1 = false)) ∧
+    (∀ (o : PackOpts) src dst path node st,
+      ∃ L, (visit fs cwd o rules root src dst fuel path node st).1.entries = st.entries ++ L ∧
+      ∀ e ∈ L, (ruleExcludes rules (wfStrip e.name)).1 = false ∧
+        (e.isDir = true → (ruleExcludes rules e.name).1 = false)) := by
+  obtain ⟨hN, hC, hV⟩ := wf_walk_ship_all fs cwd rules root fuel
+  have conv : ∀ {st st' : PState}, WfNew (WfShipOK rules) st st' →
+      ∃ L, st'.entries = st.entries ++ L ∧
+        ∀ e ∈ L, (ruleExcludes rules (wfStrip e.name)).1 = false ∧
+          (e.isDir = true → (ruleExcludes rules e.name).1 = false) := by
+    rintro st st' ⟨L, e1, hL⟩
+    exact ⟨L, e1, fun e he => ⟨(hL e he).name.1, (hL e he).name.2.1⟩⟩
+  exact ⟨fun o s d p n st => conv (hN o s d p n st), fun o s d p ns st => conv (hC o s d p ns st),
+    fun o s d p n st => conv (hV o s d p n st)⟩
+
+/-- **C03_pack_excluded_never_ships_any.** `Pack` with ignore processing on, for ANY options —
+`Dereference` on or off —, every filesystem, working directory, source and allow-list, every rule
+file (or none: the default rules) and whatever the result: with `rules` the rule set `Pack` loaded —
+`loadIgnore` at the source directory after the root-symlink step (`pkSrc1`) —
+* every entry `e` satisfies `PkNotExcluded rules e` (Lemmas/PackInv): there is a path `sub` that is
+  not excluded such that `e` is named `sub`, or `e` is a directory entry named `sub/` and `sub/` is
+  not excluded either;
+* in terms of the name alone: the name without the trailing slash of a directory entry is not
+  excluded, and a directory entry's name is not excluded with the slash either;
+* hence for every excluded path `p` the slug has no entry named `p` and none named `p/`.
+This is what the repair of finding F43 buys: the rules are matched against the name an entry gets in
+the archive, also for the files of a dereferenced directory (on the unrepaired code the statement was
+false with `Dereference` on). -/
+theorem C03_pack_excluded_never_ships_any (fs : FS) (cwd : Str) (o : PackOpts) (src : Str)
+    (hon : o.applyIgnore = true) :
+    (∀ e ∈ (pack fs cwd o src).1.entries,
+      PkNotExcluded (some (loadIgnore fs cwd (pkSrc1 fs cwd src))) e) ∧
+    (∀ e ∈ (pack fs cwd o src).1.entries,
+      (excludes (loadIgnore fs cwd (pkSrc1 fs cwd src)) (wfStrip e.name)).1 = false ∧
+      (e.isDir = true → (excludes (loadIgnore fs cwd (pkSrc1 fs cwd src)) e.name).1 = false)) ∧
+    (∀ p, (excludes (loadIgnore fs cwd (pkSrc1 fs cwd src)) p).1 = true →
+      ∀ e ∈ (pack fs cwd o src).1.entries, e.name ≠ p ∧ e.name ≠ p ++ ['/']) := by
+  have hrules : pkRules fs cwd o src = some (loadIgnore fs cwd (pkSrc1 fs cwd src)) := by
+    unfold pkRules; rw [hon]; rfl
+  have hne := pk_pack_names_not_excluded fs cwd o src
+  have hship := wf_pack_ship_any fs cwd o src
+  rw [hrules] at hne hship
+  exact ⟨hne, fun e he => ⟨(hship e he).name.1, (hship e he).name.2.1⟩,
+    fun p hp e he => (hship e he).not_named p hp⟩
+
+/-- the same for any rule set source: whatever `pkRules` is (ignore processing on or off) -/
+theorem C03_pack_excluded_never_ships_rules_any (fs : FS) (cwd : Str) (o : PackOpts) (src : Str) :
+    ∀ e ∈ (pack fs cwd o src).1.entries,
+      PkNotExcluded (pkRules fs cwd o src) e ∧
+      (ruleExcludes (pkRules fs cwd o src) (wfStrip e.name)).1 = false ∧
+      (e.isDir = true → (ruleExcludes (pkRules fs cwd o src) e.name).1 = false) :=
+  fun e he => ⟨pk_pack_names_not_excluded fs cwd o src e he,
+    (wf_pack_ship_any fs cwd o src e he).name.1, (wf_pack_ship_any fs cwd o src e he).name.2.1⟩
+
+/-- **C03_pack_excluded_never_ships.** (The dereference-free case of
+`C03_pack_excluded_never_ships_any`, kept in the form it had before the repair of finding F43, when
+it needed `dereference = false`.)  `Pack` with ignore processing on and dereferencing off, for
 every filesystem, working directory, source and allow-list, every rule file (or none: the default
 rules) and whatever the result: with `rules` the rule set `Pack` loaded — `loadIgnore` at the source
 directory after the root-symlink step (`pkSrc1`) —
@@ -190,7 +275,7 @@ example : ∀ e ∈ (pack wfFs "/".toList wfOn wfSrc).1.entries,
   rw [wf_rules_eq] at h
   exact h (by decide)
 
-/-! ### with dereferencing the secrecy statement is false -/
+/-! ### with dereferencing: the rules are matched against the archive path -/
 
 /-- `/t/src` holds a rule file `ext/k` and a link `ext` to the directory `/t/out` outside the source,
 which holds a file `k` -/
@@ -203,27 +288,41 @@ def wfFsDeref : FS := [
   (["t".toList, "src".toList, "ext".toList], .link "/t/out".toList)]
 
 def wfDerefOn : PackOpts := { dereference := true, applyIgnore := true, allow := [] }
+/-- dereferencing on, ignore processing off -/
+def wfDerefOff : PackOpts := { dereference := true, applyIgnore := false, allow := [] }
 def wfRulesDeref : List Rule :=
   [⟨"**/.terraform/**".toList, false, true⟩, ⟨"**/.terraform/modules/**".toList, true, false⟩,
    ⟨"**/.git/**".toList, false, false⟩, ⟨"**/ext/k".toList, false, false⟩]
 
-/-- **C03_cex_deref_rules_relative_to_target.** `C03_pack_excluded_never_ships` needs
-`dereference = false`.  With `Dereference` on, the files of a dereferenced directory are walked by a
-nested `filepath.Walk(target, packWalkFn(root, target, path))` and the rules are applied to their
-paths relative to the link's TARGET (`filepath.Rel(src, path)` with `src = target`), not to their
-paths inside the slug: the rule `ext/k` excludes the slug path `ext/k`, but the file is tested as `k`,
-passes, and is shipped under the excluded name `ext/k`.  (Staged evaluation: every step is a closed
-computation.) -/
-theorem C03_cex_deref_rules_relative_to_target :
+/-- the state after the rule file has been written -/
+def wfStDeref : PState :=
+  ⟨[⟨".terraformignore".toList, tReg, 0o644, 0, [], "ext/k\n".toList⟩], ⟨[".terraformignore".toList], 6⟩⟩
+
+/-- **C03_deref_rules_match_archive_path.** (This filesystem was the counterexample
+`C03_cex_deref_rules_relative_to_target` — finding F43 — on the unrepaired code: with `Dereference`
+on, the files of a dereferenced directory are walked by a nested
+`filepath.Walk(target, packWalkFn(root, target, path))`, and the rules were applied to their paths
+relative to the link's TARGET, `filepath.Rel(src, path)` with `src = target`; the rule `ext/k`
+excludes the slug path `ext/k`, but the file was tested as `k`, passed, and was shipped under the
+excluded name `ext/k`.)  The repaired callback matches the rules against the path the file gets in
+the archive: the file `/t/out/k`, reached through the link `ext`, is tested as `ext/k`, is excluded,
+and the slug holds the rule file only — no entry named `ext/k`.  The last clause shows that the walk
+does reach the file: with ignore processing off the same options ship it as `ext/k`.  (Staged
+evaluation: every step is a closed computation.) -/
+theorem C03_deref_rules_match_archive_path :
     pkRules wfFsDeref "/".toList wfDerefOn wfSrc = some wfRulesDeref ∧
     wfRulesDeref = readRules "ext/k\n".toList ∧
     (excludes wfRulesDeref "ext/k".toList).1 = true ∧
+    (excludes wfRulesDeref "k".toList).1 = false ∧
     pack wfFsDeref "/".toList wfDerefOn wfSrc =
+      (⟨[⟨".terraformignore".toList, tReg, 0o644, 0, [], "ext/k\n".toList⟩],
+        ⟨[".terraformignore".toList], 6⟩⟩, .ok) ∧
+    pack wfFsDeref "/".toList wfDerefOff wfSrc =
       (⟨[⟨".terraformignore".toList, tReg, 0o644, 0, [], "ext/k\n".toList⟩,
          ⟨"ext/k".toList, tReg, 0o600, 0, [], "s".toList⟩],
         ⟨[".terraformignore".toList, "ext/k".toList], 7⟩⟩, .ok) := by
   have hrules : pkRules wfFsDeref "/".toList wfDerefOn wfSrc = some wfRulesDeref := by decide
-  refine ⟨hrules, by decide, by decide, ?_⟩
+  have hnorules : pkRules wfFsDeref "/".toList wfDerefOff wfSrc = none := by decide
   have hroot : pkRoot wfFsDeref "/".toList wfSrc = wfSrc := by decide
   have hinfo : pkRootInfo wfFsDeref "/".toList wfSrc = .ok (.dir 0o755 0) := by rfl
   have hl : wfFsDeref.lstat wfSrc = .ok (.dir 0o755 0) := by rfl
@@ -233,29 +332,90 @@ theorem C03_cex_deref_rules_relative_to_target :
   have hj2 : pathJoin wfSrc "ext".toList = "/t/src/ext".toList := by decide
   have hl1 : wfFsDeref.lstat "/t/src/.terraformignore".toList = .ok (.file 0o644 0 "ext/k\n".toList) := by rfl
   have hl2 : wfFsDeref.lstat "/t/src/ext".toList = .ok (.link "/t/out".toList) := by rfl
-  have hw1 : walkNode wfFsDeref "/".toList wfDerefOn (some wfRulesDeref) wfSrc wfSrc wfSrc 3998
-      "/t/src/.terraformignore".toList (.file 0o644 0 "ext/k\n".toList) pkEmpty =
-      (⟨[⟨".terraformignore".toList, tReg, 0o644, 0, [], "ext/k\n".toList⟩], ⟨[".terraformignore".toList], 6⟩⟩, .cont) := by
-    decide
-  have hw2 : walkNode wfFsDeref "/".toList wfDerefOn (some wfRulesDeref) wfSrc wfSrc wfSrc 3997
-      "/t/src/ext".toList (.link "/t/out".toList)
-      ⟨[⟨".terraformignore".toList, tReg, 0o644, 0, [], "ext/k\n".toList⟩], ⟨[".terraformignore".toList], 6⟩⟩ =
-      (⟨[⟨".terraformignore".toList, tReg, 0o644, 0, [], "ext/k\n".toList⟩,
-         ⟨"ext/k".toList, tReg, 0o600, 0, [], "s".toList⟩],
-        ⟨[".terraformignore".toList, "ext/k".toList], 7⟩⟩, .cont) := by
-    decide
-  rw [pk_pack_eq, hinfo, hroot, hrules]
-  simp only [hl]
-  have hw0 : walkNode wfFsDeref "/".toList wfDerefOn (some wfRulesDeref) wfSrc wfSrc wfSrc packFuel wfSrc
-      (.dir 0o755 0) pkEmpty =
-      walkChildren wfFsDeref "/".toList wfDerefOn (some wfRulesDeref) wfSrc wfSrc wfSrc (3998 + 1) wfSrc
-        (wfFsDeref.readdir ["t".toList, "src".toList]) pkEmpty :=
-    pk_walkNode_dir_cont wfFsDeref "/".toList wfDerefOn _ wfSrc wfSrc wfSrc (3998 + 1) wfSrc 0o755 0 pkEmpty pkEmpty _
-      (wf_visit_root _ _ _ _ _ 3998 _ _) hres
-  rw [hw0, hdir,
-    pk_walkChildren_cont_of_child _ _ _ _ _ _ _ 3998 _ _ _ _ _ _ (by rw [hj1]; exact hl1) (by rw [hj1]; exact hw1),
-    pk_walkChildren_cont_of_child _ _ _ _ _ _ _ 3997 _ _ _ _ _ _ (by rw [hj2]; exact hl2) (by rw [hj2]; exact hw2)]
-  rfl
+  -- the callback on the link `ext`, up to the nested walk
+  have hA : pathRel wfSrc "/t/src/ext".toList = some "ext".toList := by decide
+  have hB : pathRel wfSrc (replaceFirst "/t/src/ext".toList wfSrc wfSrc) = some "ext".toList := by decide
+  have hD : validSymlink "/".toList wfDerefOn.allow wfSrc "/t/src/ext".toList "/t/out".toList = false := by decide
+  have hD' : validSymlink "/".toList wfDerefOff.allow wfSrc "/t/src/ext".toList "/t/out".toList = false := by decide
+  have hE : resolveExternalLink wfFsDeref maxLinkHops "/t/src/ext".toList = .ok ("/t/out".toList, .dir 0o755 0) := by rfl
+  have hF : wfFsDeref.resolvePath "/t/out".toList true = .ok ["t".toList, "out".toList] := by rfl
+  have hG : wfFsDeref.lstat "/t/out".toList = .ok (.dir 0o755 0) := by rfl
+  refine ⟨hrules, by decide, by decide, by decide, ?_, ?_⟩
+  · -- ignore processing on
+    have hw1 : walkNode wfFsDeref "/".toList wfDerefOn (some wfRulesDeref) wfSrc wfSrc wfSrc 3998
+        "/t/src/.terraformignore".toList (.file 0o644 0 "ext/k\n".toList) pkEmpty = (wfStDeref, .cont) := by
+      decide
+    have hC : (ruleExcludes (some wfRulesDeref) "ext".toList).1 = false := by decide
+    -- the nested walk of `/t/out` as `/t/src/ext`: `k` is tested as `ext/k` and dropped
+    have hH : walkNode wfFsDeref "/".toList
+        { wfDerefOn with visiting := ["t".toList, "out".toList] :: wfDerefOn.visiting } (some wfRulesDeref)
+        wfSrc "/t/out".toList "/t/src/ext".toList 3995 "/t/out".toList (.dir 0o755 0) wfStDeref =
+        (wfStDeref, .cont) := by decide
+    have hw2 : walkNode wfFsDeref "/".toList wfDerefOn (some wfRulesDeref) wfSrc wfSrc wfSrc 3997
+        "/t/src/ext".toList (.link "/t/out".toList) wfStDeref = (wfStDeref, .cont) := by
+      rw [walkNode]
+      · rw [visit]
+        · simp only [hA, hB, hC, hD, hE, hF, hG, hH]
+          rfl
+        · intro _ _ h; cases h
+      · intro _ _ h; cases h
+    rw [pk_pack_eq, hinfo, hroot, hrules]
+    simp only [hl]
+    have hw0 : walkNode wfFsDeref "/".toList wfDerefOn (some wfRulesDeref) wfSrc wfSrc wfSrc packFuel wfSrc
+        (.dir 0o755 0) pkEmpty =
+        walkChildren wfFsDeref "/".toList wfDerefOn (some wfRulesDeref) wfSrc wfSrc wfSrc (3998 + 1) wfSrc
+          (wfFsDeref.readdir ["t".toList, "src".toList]) pkEmpty :=
+      pk_walkNode_dir_cont wfFsDeref "/".toList wfDerefOn _ wfSrc wfSrc wfSrc (3998 + 1) wfSrc 0o755 0 pkEmpty pkEmpty _
+        (wf_visit_root _ _ _ _ _ 3998 _ _) hres
+    rw [hw0, hdir,
+      pk_walkChildren_cont_of_child _ _ _ _ _ _ _ 3998 _ _ _ _ _ _ (by rw [hj1]; exact hl1) (by rw [hj1]; exact hw1),
+      pk_walkChildren_cont_of_child _ _ _ _ _ _ _ 3997 _ _ _ _ _ _ (by rw [hj2]; exact hl2) (by rw [hj2]; exact hw2)]
+    rfl
+  · -- ignore processing off: the same walk ships the file under the name `ext/k`
+    have hw1 : walkNode wfFsDeref "/".toList wfDerefOff none wfSrc wfSrc wfSrc 3998
+        "/t/src/.terraformignore".toList (.file 0o644 0 "ext/k\n".toList) pkEmpty = (wfStDeref, .cont) := by
+      decide
+    have hH : walkNode wfFsDeref "/".toList
+        { wfDerefOff with visiting := ["t".toList, "out".toList] :: wfDerefOff.visiting } none
+        wfSrc "/t/out".toList "/t/src/ext".toList 3995 "/t/out".toList (.dir 0o755 0) wfStDeref =
+        (⟨[⟨".terraformignore".toList, tReg, 0o644, 0, [], "ext/k\n".toList⟩,
+           ⟨"ext/k".toList, tReg, 0o600, 0, [], "s".toList⟩],
+          ⟨[".terraformignore".toList, "ext/k".toList], 7⟩⟩, .cont) := by decide
+    have hw2 : walkNode wfFsDeref "/".toList wfDerefOff none wfSrc wfSrc wfSrc 3997
+        "/t/src/ext".toList (.link "/t/out".toList) wfStDeref =
+        (⟨[⟨".terraformignore".toList, tReg, 0o644, 0, [], "ext/k\n".toList⟩,
+           ⟨"ext/k".toList, tReg, 0o600, 0, [], "s".toList⟩],
+          ⟨[".terraformignore".toList, "ext/k".toList], 7⟩⟩, .cont) := by
+      rw [walkNode]
+      · rw [visit]
+        · simp only [hA, hB, ruleExcludes, hD', hE, hF, hG, hH]
+          rfl
+        · intro _ _ h; cases h
+      · intro _ _ h; cases h
+    rw [pk_pack_eq, hinfo, hroot, hnorules]
+    simp only [hl]
+    have hw0 : walkNode wfFsDeref "/".toList wfDerefOff none wfSrc wfSrc wfSrc packFuel wfSrc
+        (.dir 0o755 0) pkEmpty =
+        walkChildren wfFsDeref "/".toList wfDerefOff none wfSrc wfSrc wfSrc (3998 + 1) wfSrc
+          (wfFsDeref.readdir ["t".toList, "src".toList]) pkEmpty :=
+      pk_walkNode_dir_cont wfFsDeref "/".toList wfDerefOff _ wfSrc wfSrc wfSrc (3998 + 1) wfSrc 0o755 0 pkEmpty pkEmpty _
+        (wf_visit_root _ _ _ _ _ 3998 _ _) hres
+    rw [hw0, hdir,
+      pk_walkChildren_cont_of_child _ _ _ _ _ _ _ 3998 _ _ _ _ _ _ (by rw [hj1]; exact hl1) (by rw [hj1]; exact hw1),
+      pk_walkChildren_cont_of_child _ _ _ _ _ _ _ 3997 _ _ _ _ _ _ (by rw [hj2]; exact hl2) (by rw [hj2]; exact hw2)]
+    rfl
+
+theorem wf_rules_deref_eq : loadIgnore wfFsDeref "/".toList (pkSrc1 wfFsDeref "/".toList wfSrc) = wfRulesDeref := by
+  decide
+
+/-- `C03_pack_excluded_never_ships_any` instantiated with `Dereference` on (the premise of its last
+clause holds for `ext/k`: third clause of `C03_deref_rules_match_archive_path`): whatever `Pack` does
+with this tree, no entry is named `ext/k` -/
+example : ∀ e ∈ (pack wfFsDeref "/".toList wfDerefOn wfSrc).1.entries,
+    e.name ≠ "ext/k".toList ∧ e.name ≠ "ext/k/".toList := by
+  have h := (C03_pack_excluded_never_ships_any wfFsDeref "/".toList wfDerefOn wfSrc rfl).2.2 "ext/k".toList
+  rw [wf_rules_deref_eq] at h
+  exact h (by decide)
 
 /-! ## 3. completeness: what is not excluded ships -/
 
